@@ -486,12 +486,13 @@ fn process(scn: &Scn, radix: &[u8], fault: &Option<FileFault>, bad: &Option<(Str
         Some(w) => w,
     };
     // printed values
-    let cyc = field(&out, "Cycles:").unwrap_or("");
+    // (first token of each field: a tree may add explanatory text behind the value)
+    let cyc = field(&out, "Cycles:").and_then(|s| s.split_whitespace().next()).unwrap_or("");
     let want_cyc = format!("{}/{}", wn, budget(scn));
     if cyc != want_cyc {
         return Err(v("cli-output", format!("argv {:?}: printed 'Cycles: {}', stepping the machine gives {}", args, cyc, want_cyc)));
     }
-    let st = field(&out, "State:").unwrap_or("");
+    let st = field(&out, "State:").and_then(|s| s.split_whitespace().next()).unwrap_or("");
     let want_st = match wm.state() {
         State::Running => "Running",
         State::Stopped => "Stopped",
@@ -500,8 +501,8 @@ fn process(scn: &Scn, radix: &[u8], fault: &Option<FileFault>, bad: &Option<(Str
     if st != want_st {
         return Err(v("cli-output", format!("argv {:?}: printed 'State: {}', stepping the machine gives {}", args, st, want_st)));
     }
-    let fe = field(&out, "Output:").and_then(|s| s.strip_prefix("FE:")).map(|s| s.trim()).unwrap_or("");
-    let ff = field(&out, "FF:").unwrap_or("");
+    let fe = field(&out, "Output:").and_then(|s| s.strip_prefix("FE:")).and_then(|s| s.split_whitespace().next()).unwrap_or("");
+    let ff = field(&out, "FF:").and_then(|s| s.split_whitespace().next()).unwrap_or("");
     if fe != wm.bus().output_fe().to_string() || ff != wm.bus().output_ff().to_string() {
         return Err(v("cli-output", format!("argv {:?}: printed FE {} / FF {}, stepping the machine gives {} / {}", args, fe, ff, wm.bus().output_fe(), wm.bus().output_ff())));
     }
